@@ -83,6 +83,15 @@ def run(tier, seed):
     core.replay_paths(chk, g, paths, lambda a: make_driver(params, a), '2c1n edges', 'c13', params)
     core.replay_paths(chk, g, list(core.random_walks(g, 4000 if thorough else 600, 14, rng)), lambda a: make_driver(params, a),
                       '2c1n walks', 'c13', params)
+    # the same graph through the client API: real DBusClientConnections on the bus (requestBusName with all flags and both
+    # errback modes, releaseBusName, getNameOwner, listQueuedBusNameOwners, disconnect), results of Deferreds and the
+    # NameAcquired / NameLost callbacks in arrival order
+    from . import busclient
+    t2 = list(core.edge_cover_tours(g, 30))
+    chk.notes['tours_2c1n'] = len(t2)
+    if not thorough:
+        t2 = rng.sample(t2, min(len(t2), 800))
+    core.replay_paths(chk, g, t2, lambda a: busclient.make_driver(params, a), '2c1n client API tours', 'busclient', params)
     # bigger instances.  3 clients on 1 name: invariants, and the graph is replayed too (two clients waiting behind an
     # owner only exist from three clients on): sampled edge-cover tours (all of them in the thorough tier) and walks
     res, g3 = tlc.dump_graph(BASE, 'b.cfg', extra={'b.cfg': cfg([1, 2, 3], [1], 3, props=thorough)}, timeout=3000)
@@ -98,6 +107,8 @@ def run(tier, seed):
     core.replay_paths(chk, g3, tours, lambda a: make_driver(p3, a), '3c1n tours', 'c13', p3)
     core.replay_paths(chk, g3, list(core.random_walks(g3, 6000 if thorough else 500, 18, rng)), lambda a: make_driver(p3, a),
                       '3c1n walks', 'c13', p3)
+    core.replay_paths(chk, g3, list(core.random_walks(g3, 3000 if thorough else 300, 18, rng)),
+                      lambda a: busclient.make_driver(p3, a), '3c1n client API walks', 'busclient', p3)
     del g3
     if thorough:
         res, _ = tlc.run(BASE, 'b.cfg', extra={'b.cfg': cfg([1, 2, 3], [1, 2], 3, props=False)}, timeout=3000)
@@ -131,7 +142,9 @@ def run(tier, seed):
     chk.canary = {'what': 'one RequestName reply code changed in a recorded history', 'rejected': bool(rej)}
     chk.assumptions = ['clients are scripted: they send real method-call bytes to real BusProtocol objects (ANONYMOUS handshake)',
                        'a replaced owner leaves the queue (as the code does; dbus-daemon would re-queue it) - outside the property',
-                       'the name table itself is observed only through replies, signals, GetNameOwner and ListQueuedOwners']
+                       'the name table itself is observed only through replies, signals, GetNameOwner and ListQueuedOwners',
+                       'second driver: real client connections using the client API over in-memory links, each action run to '
+                       'quiescence; the bus leaves the SENDER of its own signals empty (accepted by both drivers)']
     return chk.finish(
         rule='TLC explores all histories of Hello / RequestName (8 flag combinations) / ReleaseName / GetNameOwner / '
              'ListQueuedOwners / disconnect for 2 clients with one reconnection (action properties: reply soundness, replacement '
